@@ -15,6 +15,8 @@ from harness.runner import Check
 use_repo()
 
 BASES = [0, 2 ** 8 - 2, 2 ** 16 - 2, 2 ** 31 - 2, 2 ** 32 - 2, 2 ** 53 - 2, 2 ** 63 - 2]
+# negative weights: all weights negative, mixed signs, and minima just beyond the signed dtype boundaries
+NEG_BASES = [-1, -2, -100, -127, -130, -200, -2 ** 15 - 5, -2 ** 31 - 5]
 
 
 def call(table, kind, base):
@@ -87,7 +89,7 @@ def run():
     chk.exhaustive = True
     jobs = []
     r = rng("c15")
-    for tb in tables:
+    for ti, tb in enumerate(tables):
         complete = all(w >= 0 for row in tb for w in row)
         boolable = complete and all(w <= 1 for row in tb for w in row)
         jobs.append((tb, "int", 0))
@@ -96,17 +98,19 @@ def run():
             jobs.append((tb, "bool", 0))
         # dtype boundaries: every table at one boundary (rotating), complete tables at all of them in the thorough tier
         if t == "quick":
-            jobs.append((tb, "int", BASES[1 + (len(jobs) % (len(BASES) - 1))]))
+            jobs.append((tb, "int", BASES[1 + (ti % (len(BASES) - 1))]))
+            jobs.append((tb, r.choice(("int", "float")), NEG_BASES[ti % len(NEG_BASES)]))
         else:
-            for b in BASES[1:]:
+            for b in BASES[1:] + NEG_BASES:
                 jobs.append((tb, "int", b))
+            jobs.append((tb, "float", r.choice(NEG_BASES)))
     # larger random tables with ties and sparsity (optimality only decided for complete ones, by TLC brute force <= 5x5)
     for _ in range(300 if t == "quick" else 4000):
         nr, nc = r.randint(1, 5), r.randint(1, 5)
         sparse = r.random() < 0.4
-        wmax = r.choice((1, 2, 3, 9))
+        wmax = r.choice((1, 2, 3, 9, 300))
         tb = [[(-1 if sparse and r.random() < 0.3 else r.randint(0, wmax)) for _ in range(nc)] for _ in range(nr)]
-        jobs.append((tb, r.choice(("int", "float")), r.choice(BASES[:5])))
+        jobs.append((tb, r.choice(("int", "float")), r.choice(BASES[:5] + NEG_BASES)))
     ctx = mp.get_context("fork")
     with ctx.Pool(min(16, os.cpu_count() or 4), initializer=_init, maxtasksperchild=5000) as pool:
         records = pool.map(_job, jobs, chunksize=64)
@@ -130,7 +134,7 @@ def run():
             if v["v"] == "ACCEPT":
                 continue
             rec = records[i]
-            sig = {"clause": v["clause"], "kind": kind, "base_log2": base.bit_length(),
+            sig = {"clause": v["clause"], "kind": kind, "base_log2": base.bit_length(), "negative": base < 0,
                    "all_missing": all(w < 0 for row in tb for w in row), "complete": complete,
                    "exc": rec["exc"].split(":")[0]}
             chk.violation(sig, {"table": tb, "kind": kind, "base": base},
